@@ -267,3 +267,96 @@ def type_gate_findings(ctx, fn):
             if not ok:
                 bad.append((n, p, attr))
     return checked, bad
+
+
+# ---------------------------------------------------------------------------
+# mutators: methods of the value classes that change the receiver's buffer
+
+VALUE_CLASSES = [
+    (NUMBERS, 'Value'), (NUMBERS, 'Number'), (NUMBERS, 'Integer'), (NUMBERS, 'Float'),
+    (NUMBERS, 'Single'), (NUMBERS, 'Double'), (STRINGS, 'String'),
+]
+
+
+def mutator_methods(ctx):
+    """
+    Fixpoint: a method mutates its receiver if it assigns into self._buffer,
+    packs into it, or calls another mutator on `self` (aliases `x = y`
+    at class level are followed).
+    Returns dict method-name -> set of class names where it mutates.
+    """
+    methods = {}
+    aliases = {}
+    for path, cname in VALUE_CLASSES:
+        cls = ctx.cls(path + ':' + cname)
+        for name, fn in class_methods(cls).items():
+            methods.setdefault(name, []).append((cname, fn))
+        for st in cls.body:
+            if isinstance(st, ast.Assign) and isinstance(st.value, ast.Name):
+                for t in st.targets:
+                    if isinstance(t, ast.Name):
+                        aliases[t.id] = st.value.id
+    mut = {}
+    changed = True
+
+    def direct(fn):
+        for n in own_nodes(fn):
+            if isinstance(n, (ast.Assign, ast.AugAssign)):
+                tgts = n.targets if isinstance(n, ast.Assign) else [n.target]
+                for t in tgts:
+                    if isinstance(t, ast.Subscript) and norm(t.value) == 'self._buffer':
+                        return True
+            if isinstance(n, ast.Call) and norm(n.func) == 'struct.pack_into' and len(n.args) > 1 \
+                    and norm(n.args[1]) == 'self._buffer':
+                return True
+        return False
+
+    for name, impls in methods.items():
+        for cname, fn in impls:
+            if name not in ('__init__', '__setstate__', '__getstate__') and direct(fn):
+                mut.setdefault(name, set()).add(cname)
+    while changed:
+        changed = False
+        for name, impls in methods.items():
+            if name in ('__init__', '__setstate__', '__getstate__'):
+                continue
+            for cname, fn in impls:
+                if cname in mut.get(name, ()):
+                    continue
+                for n in own_nodes(fn):
+                    if isinstance(n, ast.Call) and isinstance(n.func, ast.Attribute) and norm(n.func.value) == 'self' \
+                            and aliases.get(n.func.attr, n.func.attr) in mut:
+                        mut.setdefault(name, set()).add(cname)
+                        changed = True
+                        break
+    for a, target in aliases.items():
+        if target in mut:
+            mut[a] = set(mut[target])
+    return mut
+
+
+FRESH_CALLS = ('clone', 'new', 'new_integer', 'new_single', 'new_double', 'new_string')
+FRESH_CTORS = ('Integer', 'Single', 'Double', 'String', 'numbers.Integer', 'numbers.Single', 'numbers.Double',
+               'strings.String', 'floatcls')
+
+
+def receiver_is_fresh(recv):
+    """The receiver chain contains an allocation: .clone(), .new(), new_*(), a class constructor call."""
+    n = recv
+    while True:
+        if isinstance(n, ast.Call):
+            f = n.func
+            if isinstance(f, ast.Attribute) and f.attr in FRESH_CALLS:
+                return True
+            if norm(f) in FRESH_CTORS:
+                return True
+            if isinstance(f, ast.Subscript) and norm(f.value) in ('TYPE_TO_CLASS', 'SIZE_TO_CLASS'):
+                return True
+            if isinstance(f, ast.Attribute):
+                n = f.value
+                continue
+            return False
+        if isinstance(n, ast.Attribute):
+            n = n.value
+            continue
+        return False
